@@ -21,6 +21,8 @@ type env struct {
 	atBlock *ssa.BasicBlock // for resolving source locals (loop invariants)
 	atInstr ssa.Instruction
 	atEnd   bool // names resolve at the end of atBlock (return state) instead of its entry
+	inOld   bool // inside old(...): parameter names mean their entry values
+	curParams bool // loop invariants / point assertions / ghost assignments: a reassigned parameter's name means its current value
 	depth   int
 }
 
@@ -118,7 +120,9 @@ func (g *gen) elab1(x *Expr, e *env) (Val, error) {
 	case "name":
 		return g.elabName(x.S, e)
 	case "old":
-		return g.elab1(x.Args[0], e.with(e.old))
+		eo := e.with(e.old)
+		eo.inOld = true
+		return g.elab1(x.Args[0], eo)
 	case "pre":
 		return g.elab1(x.Args[0], e.with(e.pre))
 	case "un":
@@ -198,6 +202,14 @@ func (g *gen) elab1(x *Expr, e *env) (Val, error) {
 }
 
 func (g *gen) elabName(name string, e *env) (Val, error) {
+	// A parameter that the body reassigns (`i++`) has a current value at a program point (loop invariant, point
+	// assertion, return) that differs from its entry value: at such points the name means the current value;
+	// `old(name)` means the value at entry.
+	if _, isParam := g.paramEnv[name]; isParam && e.atBlock != nil && e.curParams && !e.inOld {
+		if v, ok := g.lookupLocal(name, e); ok {
+			return v, nil
+		}
+	}
 	if v, ok := e.names[name]; ok {
 		if v.L != nil && v.T == "" {
 			// address-taken local: read the cell in the current state
